@@ -192,6 +192,16 @@ def r10_1(ctx):
             ok = restored.get(stream) == saved.get(stream) and saved.get(stream) is not None
             ctx.check(ok, dis.fq, f"sys.{stream} = self.{restored.get(stream)}", dis.where, f"sys.{stream} restored from the slot that saved it (self.{saved.get(stream)})",
                       f"sys.{stream} is saved in self.{saved.get(stream)} but restored from self.{restored.get(stream)}: the stream stays redirected or is swapped after stop()")
+        # ... and the restore runs exactly when something was saved: its only guard is the truth / not-None of its own slot
+        gd = cfgmod.build(dis.node)
+        for nd in gd.stmt_nodes():
+            if nd.kind == "stmt" and isinstance(nd.stmt, ast.Assign) and len(nd.stmt.targets) == 1 and is_attr_of(nd.stmt.targets[0], "sys") and nd.stmt.targets[0].attr in replaced:
+                slot = restored.get(nd.stmt.targets[0].attr)
+                facts = [(norm(t_), v_) for t_, v_ in gd.branch_facts(nd.id)]
+                good = {(f"self.{slot}", True), (f"self.{slot} is not None", True), (f"self.{slot} is None", False), (f"not self.{slot}", False)}
+                bad_f = [(t_, v_) for t_, v_ in facts if (t_, v_) not in good]
+                ctx.check(not bad_f, dis.fq, short(nd.stmt), f"{dis.module.relpath}:{nd.lineno}", f"`{short(nd.stmt)}` runs whenever self.{slot} holds a saved stream",
+                          f"`{short(nd.stmt)}` is guarded by {[t_ if v_ else 'not (' + t_ + ')' for t_, v_ in bad_f]}: when a stream was saved the restore is skipped (or it runs with nothing saved) - sys.{nd.stmt.targets[0].attr} stays a FileProxy after stop()")
         ctx.floor(len(replaced), 2, f"redirected streams in {spec}")
 
 
@@ -962,7 +972,33 @@ def r10_16(ctx):
     borrow(ctx, r1_12, "R1.12", "R10.16", " [a frame line wider than the terminal wraps: the recorded frame height undercounts the rows on screen and the next erase leaves remnants]")
 
 
-RULES = [r10_1, r10_2, r10_3, r10_4, r10_5, r10_6, r10_7, r10_8, r10_9, r10_10, r10_11, r10_12, r10_13, r10_14, r10_15, r10_16]
+def r10_17(ctx):
+    ctx.rule("R10.17", "the hook stack is a stack: Console.push_render_hook appends the hook to Console._render_hooks and Console.pop_render_hook removes exactly the last entry (pop() / pop(-1) / del [-1]) on every path - stop() relies on it to end the rewriting of prints; a pop that removes nothing leaves the finished display's hook installed (every later print redraws the dead frame), one that removes the first entry unhooks an outer display")
+    c = ctx.repo.cls("console:Console")
+    push, pop = c.method("push_render_hook"), c.method("pop_render_hook")
+    if push is None or pop is None:
+        raise AnchorVanished("Console.push_render_hook / pop_render_hook not found")
+    hp = push.params[1] if len(push.params) > 1 else None
+    apps = [x for x in walk_local(push.node) if isinstance(x, ast.Call) and norm(x.func) == "self._render_hooks.append" and len(x.args) == 1 and norm(x.args[0]) == hp]
+    ctx.check(len(apps) == 1, push.fq, "self._render_hooks.append(hook)", push.where, "push appends the hook", "push_render_hook does not append exactly the given hook to self._render_hooks")
+    g = cfgmod.build(pop.node)
+    removes = set()
+    for nd in g.stmt_nodes():
+        if nd.kind != "stmt" or nd.stmt is None:
+            continue
+        for x in ast.walk(nd.stmt):
+            if isinstance(x, ast.Call) and norm(x.func) == "self._render_hooks.pop" and (not x.args or (len(x.args) == 1 and const_int(x.args[0]) == -1)):
+                removes.add(nd.id)
+            if isinstance(x, ast.Call) and norm(x.func) == "self._render_hooks.pop" and x.args and const_int(x.args[0]) not in (-1, None):
+                ctx.violation(pop.fq, short(nd.stmt), f"{pop.module.relpath}:{nd.lineno}", f"`{short(nd.stmt)}` removes an entry other than the last one: nested displays are unhooked in the wrong order")
+        if isinstance(nd.stmt, ast.Delete) and any(norm(t_) == "self._render_hooks[-1]" for t_ in nd.stmt.targets):
+            removes.add(nd.id)
+    ok = bool(removes) and g.exit not in g.reach([g.entry], avoid=removes)
+    ctx.check(ok, pop.fq, "self._render_hooks.pop()", pop.where, "pop removes the last hook on every path",
+              "pop_render_hook can return without having removed the last entry of self._render_hooks: after stop() the display's hook stays installed and every later print is rewritten around a frame that is no longer live")
+
+
+RULES = [r10_1, r10_2, r10_3, r10_4, r10_5, r10_6, r10_7, r10_8, r10_9, r10_10, r10_11, r10_12, r10_13, r10_14, r10_15, r10_16, r10_17]
 
 
 def _xcheck(ctx):
